@@ -5,6 +5,9 @@ from . import r_unwind as U
 from . import r_entity as E
 from . import r_spec as SP
 from . import r_macros as M
+from . import r_tmpl as T
+from . import r_misc as X
+from . import r_witness as W
 
 COMMON_ASSUMPTIONS = [
     "rustc nightly front end, MIR construction and trait resolution are correct; the mirfacts extractor serialises MIR faithfully",
@@ -161,7 +164,9 @@ prop(
 
 prop(
     "C05",
-    rules=["C05-R1", "C05-R2", "C05-R3", "C05-R4", "C05-R5", "C05-R7"],
+    rules=["C05-R1", "C05-R2", "C05-R3", "C05-R4", "C05-R5", "C05-R7", "C05-R6"],
+    static_rules=[T.rule_sibling_helpers],
+    static_floors={'C05-R6': 1},
     mir_rules=[M.rule_bind_query_params, M.rule_contains_component, M.rule_bind_one_of, M.rule_generators, SP.rule_find_dispatch, SP.rule_iter_loops],
     floors={"C05-R1": 40, "C05-R2": 9, "C05-R3": 7, "C05-R4": 9, "C05-R5": 60, "C05-R7": 30},
     explanation="Static analysis, universal part on the macro crate's own MIR: C05-R1 in bind_query_params a parameter binds to an archetype iff (Component) !cfg_enabled or contains_component(archetype, name), (Entity/EntityDirect<A>) !cfg_enabled or archetype.name == A, "
@@ -198,7 +203,9 @@ prop(
 
 prop(
     "C15",
-    rules=["C15-R1", "C15-R2", "C15-R3", "C15-R4", "C15-R7", "C16-R4"],
+    rules=["C15-R1", "C15-R2", "C15-R3", "C15-R4", "C15-R7", "C16-R4", "C15-R6"],
+    static_rules=[T.rule_template_shapes],
+    static_floors={'C15-R6': 1},
     mir_rules=[M.rule_advance_id, M.rule_dataworld, SP.rule_tables],
     floors={"C15-R1": 5, "C15-R2": 5, "C15-R3": 20, "C15-R4": 2, "C15-R7": 10},
     explanation="Static analysis, universal over declarations (on the generator's own MIR): C15-R1 advance_attribute_id returns Ok(Some(next)) with exactly three origins under exactly these guards: explicit id iff present, else checked_add(previous, 1) iff a previous id exists, else 0; "
@@ -210,11 +217,42 @@ prop(
 
 prop(
     "C16",
-    rules=["C16-R1", "C16-R3", "C16-R4", "C16-R5", "C05-R1"],
+    rules=["C16-R1", "C16-R3", "C16-R4", "C16-R5", "C05-R1", "C16-R2"],
+    static_rules=[T.rule_template_shapes],
+    static_floors={'C16-R2': 10, 'C16-R4': 9},
     mir_rules=[M.rule_collectors, M.rule_cfg_lookup, M.rule_dataworld, M.rule_bind_query_params],
     floors={"C16-R1": 15, "C16-R3": 12, "C16-R4": 6, "C16-R5": 1},
     explanation="Static analysis on the macro crate's MIR: C16-R1 the expand side and the impl side of each of the six entry kinds use the same HasCfgPredicates impl (same T), the query impls delegate to one get_cfg_predicates, both collectors push a predicate iff "
     "HashSet::insert(to_string(predicate)) reports it new (first-appearance order); C16-R3 ParseCfgDecorated::parse inserts (to_string(predicate_i), state_i) over zip(predicates, states) after asserting equal lengths, evaluate_cfgs/is_cfg_enabled look up "
     "to_string(cfg.predicate) and form the conjunction; C16-R4 disabled archetypes/components are skipped before ids, structs and matching see them, disabled query parameters bind to every archetype (C05-R1 !enabled disjunct); C16-R5 cfg on OneOf is rejected.",
     not_decided="that rustc evaluates cfg (trusted); the literal shape of the generated probe chain and the #attrs emission are judged by the template rules",
+)
+
+prop(
+    "C18",
+    rules=["C18-R1", "C18-R2", "C18-R3", "C18-R4", "C18-R5", "C18-R6"],
+    static_rules=[T.rule_templates_unsafe_free, W.rule_compile_fail],
+    static_floors={"C18-R1": 88, "C18-R5": 40},
+    mir_rules=[X.rule_lifetimes, X.rule_unsafe_surface, M.rule_param_parser],
+    floors={"C18-R3": 1500, "C18-R4": 3, "C18-R6": 6},
+    explanation="Static analysis. Universal parts: C18-R1 token scan (proc-macro2 lexer) of every quote!/quote_spanned!/format_ident! template and every Ident::new literal of the generator: no `unsafe`, no no_mangle/export_name/link_section/link/naked/allow(unsafe_code), "
+    "no extern block, no static mut -- every other emitted token is a declared name, a literal or the user's own tokens; C18-R3 from fn_sig of every fn of gecs and of the specimen expansion: every region of the return type occurs in a parameter type or is 'static, raw-pointer structs tie their lifetime to PhantomData<&'a ..>; "
+    "C18-R4 the only unsafe impls are Send/Sync for DataPtr<T> bounded on T, generated code has none; C18-R6 the parameter parser rejects `&mut` for exactly the entity kinds (derived from the enum's variants). "
+    "Witnessed parts: C18-R2 the specimen client crate is forbid(unsafe_code) and compiles in every configuration; C18-R5 24 minimal unsound client programs are rejected with the stated error code / macro message with the primary span on the marked line, and each sound twin compiles.",
+    not_decided="soundness of gecs' internal unsafe code as a whole is the subject of C01-C04/C10; the witness corpus samples client programs",
+)
+
+prop(
+    "C19",
+    rules=["C19-R1", "C19-R2", "C19-R3", "C19-R4", "C19-R5", "C19-R6"],
+    static_rules=[T.rule_cfg_inventory],
+    static_floors={"C19-R1": 15, "C19-R2": 20, "C19-R6": 3},
+    mir_rules=[X.rule_debug_checks, S.rule_version_next],
+    floors={"C19-R3": 1},
+    explanation="Static analysis. Decides: C19-R1 the inventory of every cfg/cfg_attr attribute and cfg!() invocation in both crates (token-level, including inside macro_rules bodies) equals the reviewed table, keyed by file/kind/predicate; "
+    "C19-R2 gated regions are confined: `events` gates mention only the event logs, `wrapping_version` gates are the alternative initialisers of `version` in next(), `32_components` gates are the 17..=32 twins of the ungated instantiations; "
+    "C19-R3 (G-DBG) every debug_assert* region of gecs (found on the CFG by its `if cfg!(debug_assertions)` switch) is effect free: no store through a pointer, no mutable borrow of state, only calls without write effect -- so assertions on/off cannot change state; "
+    "C19-R4 every rule of every other property is evaluated in each analysed configuration (quick: 3, thorough: all 16) and a rule instance that fails in some configurations but not in others is reported here; C19-R5 the wrapping next() has neither a panic nor an unchecked operation, "
+    "generations are only compared (C03-R3); C19-R6 Cargo feature wiring (events forwards to gecs_macros/events only).",
+    not_decided="no run-time behaviour is compared across configurations; the claim is as strong as the per-property structural claims",
 )
